@@ -100,6 +100,28 @@ type Omit struct {
 	B bool             `json:"b,omitempty"`
 }
 
+// PlainOmit has no pointers at all (no string, slice, map or pointer), only
+// nullable scalars: a decoder that relies on the record memory being cleared
+// between records shows here, where nothing else would re-initialise a field
+// whose value is null.
+type PlainOmit struct {
+	A int64   `json:"a,omitempty"`
+	B float64 `json:"b,omitempty"`
+	C bool    `json:"c,omitempty"`
+	D int32   `json:"d,omitempty"`
+	E int64   `json:"e"`
+}
+
+// PtrSlices: slices and byte strings behind pointers (generated non-nil: a nil
+// *[]T has no encoding in this library).
+type PtrSlices struct {
+	ID int64     `json:"id"`
+	PL *[]int64  `json:"pl"`
+	PS *[]string `json:"ps"`
+	PR *[]Inner  `json:"pr"`
+	S  string    `json:"s"`
+}
+
 type Mixed struct {
 	ID int64             `json:"id"`
 	S  string            `json:"s"`
@@ -177,6 +199,8 @@ func init() {
 	addType(desc[One]("One", false, false))
 	addType(desc[Padded]("Padded", false, false))
 	addType(desc[Omit]("Omit", false, false))
+	addType(desc[PlainOmit]("PlainOmit", false, false))
+	addType(desc[PtrSlices]("PtrSlices", false, false))
 	addType(desc[Mixed]("Mixed", false, true))
 	addType(desc[Fixed]("Fixed", true, false))
 }
